@@ -38,7 +38,8 @@
 EXTENDS Integers, Sequences, FiniteSets, TLC, SequencesExt, Functions, Json
 
 CONSTANTS Sources,   \* set of encoded sources kind*10000 + NO*100 + NC*10 + NT
-                     \*   kind 1 = Dataset, 2 = TemporalDataset ('time' only), 3 = TemporalDataset ('time','phase')
+                     \*   kind 1 = Dataset, 2 = TemporalDataset ('time' only), 3 = TemporalDataset ('time','phase'),
+                     \*   4 = Dataset and 5 = TemporalDataset ('time') that also carry 'flag' and 'mark' (missing values)
           MaxObj,    \* heap slots
           MaxRows, MaxCols, MaxTims,   \* growth guards
           MaxDen,    \* cap on the denominator of bin weights (nested binning)
@@ -72,12 +73,17 @@ Cond(o)  == 1 + (o % 2)           \* 'cond'  : 2,1,2,1,...   duplicates, not sor
 Sess(o)  == (o + 1) \div 2        \* 'sess'  : 1,1,2,2,...
 Roi(c)   == 1 + (c % 2)           \* 'roi'   : 2,1,2
 Phase(t) == 1 + (t % 2)           \* 'phase' : 2,1,2,1
+\* observation descriptors with MISSING entries (None / NaN in the real object), sources of kind 4, 5:
+Missing == -1
+Flag(o)  == IF o % 2 = 0 THEN 1 ELSE Missing           \* 'flag' : -,1,-,1   one distinct value besides missing
+Mark(o)  == IF o % 3 = 0 THEN Missing ELSE o % 3       \* 'mark' : 1,2,-,1   two distinct values besides missing
+MissKeys == {"flag", "mark"}
 
-OKeysAll == {"obs", "cond", "sess", "time", "phase", "bins"}
+OKeysAll == {"obs", "cond", "sess", "time", "phase", "bins", "flag", "mark"}
 CKeysAll == {"chan", "roi", "time", "phase", "bins"}
 TKeysAll == {"time", "phase", "bins"}
 DKeys    == OKeysAll \cup CKeysAll
-IntKey(k) == k \in {"obs", "cond", "sess", "chan", "roi", "phase"}
+IntKey(k) == k \in {"obs", "cond", "sess", "chan", "roi", "phase", "flag", "mark"}
 Absent(k) == IF IntKey(k) THEN 0 ELSE <<>>
 NoDD == [k \in DKeys |-> Absent(k)]
 
@@ -106,19 +112,21 @@ HasFree(h) == \E o \in 1..MaxObj : ~Live(h, o)
 SrcKind(s) == s \div 10000
 SrcNO(s) == (s \div 100) % 100
 SrcNC(s) == (s \div 10) % 10
-SrcNT(s) == IF SrcKind(s) = 1 THEN 1 ELSE s % 10
+SrcFlat(s) == SrcKind(s) \in {1, 4}
+SrcNT(s) == IF SrcFlat(s) THEN 1 ELSE s % 10
 Source(s) ==
   LET kind == SrcKind(s)  no == SrcNO(s)  nc == SrcNC(s)  nt == SrcNT(s)
-      tims == IF kind = 1 THEN <<NoT>> ELSE [t \in 1..nt |-> SrcTL(t, nt, kind)] IN
-  [kind |-> IF kind = 1 THEN "F" ELSE "T",
+      tims == IF SrcFlat(s) THEN <<NoT>> ELSE [t \in 1..nt |-> SrcTL(t, nt, kind)] IN
+  [kind |-> IF SrcFlat(s) THEN "F" ELSE "T",
    rows |-> [o \in 1..no |-> <<o, NoT>>], cols |-> [c \in 1..nc |-> <<c, NoT>>], tims |-> tims,
-   okeys |-> {"obs", "cond", "sess"}, ckeys |-> {"chan", "roi"},
-   tkeys |-> IF kind = 1 THEN {} ELSE IF kind = 2 THEN {"time"} ELSE {"time", "phase"},
+   okeys |-> {"obs", "cond", "sess"} \cup (IF kind >= 4 THEN MissKeys ELSE {}), ckeys |-> {"chan", "roi"},
+   tkeys |-> IF SrcFlat(s) THEN {} ELSE IF kind = 3 THEN {"time", "phase"} ELSE {"time"},
    dd |-> NoDD,
    val |-> [o \in 1..no |-> [c \in 1..nc |-> [t \in 1..nt |-> Cell(o, c, tims[t])]]]]
 
 (* ---------------- descriptor columns ------------------------------------- *)
 RowVal(row, k) == CASE k = "obs" -> row[1] [] k = "cond" -> Cond(row[1]) [] k = "sess" -> Sess(row[1])
+                    [] k = "flag" -> Flag(row[1]) [] k = "mark" -> Mark(row[1])
                     [] OTHER -> TLVal(row[2], k)
 ColVal(col, k) == CASE k = "chan" -> col[1] [] k = "roi" -> Roi(col[1]) [] OTHER -> TLVal(col[2], k)
 ODesc(ob, k) == [i \in 1..Len(ob.rows) |-> RowVal(ob.rows[i], k)]
@@ -247,27 +255,31 @@ Enabled(h, e) ==
   /\ e.o \in 1..MaxObj /\ Live(h, e.o)
   /\ Producer(e.op) => HasFree(h)
   /\ LET ob == h[e.o]  nr == Len(ob.rows)  nc == Len(ob.cols)  nt == Len(ob.tims) IN
-     CASE e.op = "split_obs" -> e.by \in ob.okeys /\ e.o2 \in 1..Len(PartsSel(ODesc(ob, e.by)))
+     CASE e.op = "split_obs" -> e.by \in ob.okeys \ MissKeys /\ e.o2 \in 1..Len(PartsSel(ODesc(ob, e.by)))
        [] e.op = "split_channel" -> e.by \in ob.ckeys /\ e.o2 \in 1..Len(PartsSel(CDesc(ob, e.by)))
        [] e.op = "split_time" -> ob.kind = "T" /\ e.by \in ob.tkeys /\ e.o2 \in 1..Len(PartsSel(TDesc(ob, e.by)))
-       [] e.op = "split_merge" -> e.by \in ob.okeys          \* merge_datasets(ds.split_obs(by))
+       [] e.op = "split_merge" -> e.by \in ob.okeys \ MissKeys          \* merge_datasets(ds.split_obs(by))
        [] e.op = "subset_obs" ->       \* a value or list of values, at least one of them present
-            e.by \in ob.okeys /\ e.vals # <<>> /\ Matching(ODesc(ob, e.by), Range(e.vals)) # <<>>
+            /\ e.by \in ob.okeys /\ e.vals # <<>> /\ Matching(ODesc(ob, e.by), Range(e.vals)) # <<>>
+            /\ (e.by \in MissKeys => Missing \notin Range(e.vals))    \* one cannot ask for "missing"
        [] e.op = "subset_channel" ->
             e.by \in ob.ckeys /\ e.vals # <<>> /\ Matching(CDesc(ob, e.by), Range(e.vals)) # <<>>
        [] e.op = "subset_time" ->      \* vals = <<t_from, t_to>> on an ordered descriptor
             /\ ob.kind = "T" /\ e.by \in ob.tkeys \cap {"time", "phase"} /\ Len(e.vals) = 2
             /\ \E i \in 1..nt : ValLe(e.by, e.vals[1], TDesc(ob, e.by)[i]) /\ ValLe(e.by, TDesc(ob, e.by)[i], e.vals[2])
-       [] e.op = "sort_by" -> e.by \in ob.okeys \ {"bins"}
+       [] e.op = "sort_by" -> e.by \in ob.okeys \ ({"bins"} \cup MissKeys)
        [] e.op = "merge" ->            \* same type, identical channel and time descriptors
             /\ e.o2 \in 1..MaxObj /\ Live(h, e.o2)
             /\ h[e.o2].kind = ob.kind /\ h[e.o2].cols = ob.cols /\ h[e.o2].tims = ob.tims
             /\ h[e.o2].ckeys = ob.ckeys /\ h[e.o2].tkeys = ob.tkeys
             /\ nr + Len(h[e.o2].rows) <= MaxRows
+            \* a missing value at the dataset level (from_df of an all-missing column) is NaN in one
+            \* flavour and None in the other, and NaN is not equal to itself: not explored
+            /\ \A k \in MissKeys : ob.dd[k] # Missing /\ h[e.o2].dd[k] # Missing
        [] e.op = "odd_even" ->         \* at least two values, else one half is empty
-            e.by \in ob.okeys /\ e.o2 \in {1, 2} /\ Len(PartsSel(ODesc(ob, e.by))) >= 2
+            e.by \in ob.okeys \ MissKeys /\ e.o2 \in {1, 2} /\ Len(PartsSel(ODesc(ob, e.by))) >= 2
        [] e.op = "nested_odd_even" ->
-            /\ e.by \in ob.okeys /\ e.by2 \in ob.okeys /\ e.o2 \in {1, 2}
+            /\ e.by \in ob.okeys \ MissKeys /\ e.by2 \in ob.okeys \ MissKeys /\ e.o2 \in {1, 2}
             /\ \A p \in Range(SplitObsParts(ob, e.by)) : Len(PartsSel(ODesc(p, e.by2))) >= 2
        [] e.op = "bin_time" ->         \* on 'time', the only time descriptor besides 'bins'; no empty bin
             /\ ob.kind = "T" /\ e.by = "time" /\ ob.tkeys \subseteq {"time", "bins"}
@@ -279,9 +291,9 @@ Enabled(h, e) ==
        [] e.op = "time_as_channels" -> ob.kind = "T" /\ nc * nt <= MaxCols
        [] e.op = "df" ->               \* columns named by a duplicate-free channel descriptor
             ob.kind = "F" /\ e.by \in ob.ckeys /\ NoDup(CDesc(ob, e.by))
-       [] e.op = "average_by" -> ob.kind = "F" /\ e.by \in ob.okeys
+       [] e.op = "average_by" -> ob.kind = "F" /\ e.by \in ob.okeys \ MissKeys
        [] e.op = "tensor" ->           \* get_measurements_tensor: equally many observations per value
-            /\ ob.kind = "F" /\ e.by \in ob.okeys
+            /\ ob.kind = "F" /\ e.by \in ob.okeys \ MissKeys
             /\ \A p \in Range(PartsSel(ODesc(ob, e.by))) : Len(p) = Len(PartsSel(ODesc(ob, e.by))[1])
        [] e.op \in {"copy", "saveload", "dict", "drop"} -> TRUE
        [] OTHER -> FALSE
@@ -442,7 +454,7 @@ DescAttachedOk(ob) ==
   /\ \A i \in 1..Len(ob.rows) : TLOk(ob.rows[i][2])
   /\ \A i \in 1..Len(ob.cols) : TLOk(ob.cols[i][2])
   /\ \A i \in 1..Len(ob.tims) : TLOk(ob.tims[i])
-  /\ \A k \in OKeysAll : (ob.dd[k] # Absent(k) /\ (k \in ob.okeys \/ k \in {"obs", "cond", "sess"})) =>
+  /\ \A k \in OKeysAll : (ob.dd[k] # Absent(k) /\ (k \in ob.okeys \/ k \in {"obs", "cond", "sess", "flag", "mark"})) =>
         \A i \in 1..Len(ob.rows) : RowVal(ob.rows[i], k) = ob.dd[k]
   /\ \A k \in CKeysAll \ OKeysAll : ob.dd[k] # Absent(k) =>
         \A i \in 1..Len(ob.cols) : ColVal(ob.cols[i], k) = ob.dd[k]
@@ -542,6 +554,10 @@ ClauseOk(h, e, h2) ==
        /\ Len(res.cols) = Len(ob.cols) * Len(ob.tims) /\ res.rows = ob.rows /\ res.kind = "F"
        /\ ob.ckeys \cup ob.tkeys \subseteq res.ckeys
   /\ e.op = "df" => /\ res.rows = ob.rows /\ res.cols = ob.cols /\ res.val = ob.val
+                    \* from_df: a column becomes a dataset descriptor only if it is constant over ALL
+                    \* rows - a partly missing column stays an observation descriptor
+                    /\ \A k \in ob.okeys : (k \notin res.okeys) =>
+                          (ob.dd[k] # Absent(k) \/ \A i \in 1..Len(ob.rows) : RowVal(ob.rows[i], k) = RowVal(ob.rows[1], k))
                     \* every observation descriptor value is still there, per row or for the whole set
                     /\ \A k \in ob.okeys : k \in res.okeys \/ (res.dd[k] # Absent(k) /\ \A i \in 1..Len(ob.rows) : RowVal(ob.rows[i], k) = res.dd[k])
   /\ e.op \in {"copy", "saveload", "dict"} => res = ob
